@@ -52,14 +52,14 @@ PROPS["C02"] = dict(
     rule=PAIR_RULE + "; implementation answers A.Intersects(B), B.Intersects(A) compared with the Coq model and with the arrangement oracle meets_x",
     trusted_base=COMMON_TB + ["the executable arrangement oracle coq/PairSpec.v (meets_x) as ground truth for polygon pairs: its completeness is not proved (polygonal Jordan curve theorem, DESIGN §9)"],
     assumptions=["float64 exact on D"],
-    partial=["completeness (Meets -> true) of ring x segment / ring x ring / polygon pairs is explored against the oracle, not proved"],
+    partial=["ring x segment and ring x line string are proved exact as point sets (Jordan.v, JordanQ.v); exactness of ring x ring and of pairs involving holes is explored against the oracle, not proved"],
 )
 PROPS["C03"] = dict(
     streams=["C03"], kernel_cases=200, timeout=1500, classify=classes.classify_c03,
     rule=PAIR_RULE + "; implementation answers A.Contains(B), B.Contains(A) compared with the Coq model and with the arrangement oracle covers_x",
     trusted_base=COMMON_TB + ["the executable arrangement oracle coq/PairSpec.v (covers_x) as ground truth: its completeness is not proved (DESIGN §9)"],
     assumptions=["float64 exact on D"],
-    partial=["containment for concave rings / holes is explored against the oracle, not proved; the pinned tree violates it in contact configurations (KNOWN_FINDINGS.txt)"],
+    partial=["strict containment of a segment by a non-convex ring is proved exact as a point-set statement (JordanQ.v); containment with boundary contact for concave rings / holes is explored against the oracle, not proved; the pinned tree violates it in contact configurations (KNOWN_FINDINGS.txt)"],
 )
 PROPS["C12"] = dict(
     streams=["C12"], kernel_cases=200, timeout=1500, classify=classes.classify_c12,
